@@ -94,6 +94,10 @@ pub fn c14(args: &Args, reg: &[TypeEntry], log: &mut Log) {
         if let (Some((a, _)), Some((b, _))) = (bodies.get("name"), bodies.get("inline")) {
             checks.insert("name~inline".into(), equiv(&env, a, b));
         }
+        // the field of a newtype variant, by name and inlined (the tag of an internally tagged enum is intersected with either spelling)
+        if let (Some((a, _)), Some((b, _))) = (bodies.get("nv-name"), bodies.get("nv-inline-twin")) {
+            checks.insert("nv-name~nv-inline".into(), equiv(&env, a, b));
+        }
         for onull in ["opt", "nullable"] {
             if let (Some((a, _)), Some((b, _))) = (bodies.get(&format!("name-optional-{onull}")), bodies.get(&format!("inline-optional-{onull}"))) {
                 checks.insert(format!("name~inline (optional = {onull})"), equiv(&env, a, b));
